@@ -51,6 +51,24 @@ fn csr_fields(der: &[u8]) -> Option<CsrFields> {
 /// independent verification with ring: key type from the SPKI, hash from the signature OID
 fn ring_verify_csr(f: &CsrFields) -> Option<bool> {
 	let has = |hay: &[u8], needle: &[u8]| hay.windows(needle.len()).any(|w| w == needle);
+	// elliptic-curve keys (any named curve, P-521 included) under an ECDSA identifier: OpenSSL
+	// decodes the SubjectPublicKeyInfo as it stands — a point that is not on the curve the label
+	// names is no key — and verifies with the hash the signature identifier names
+	{
+		let ec_key = [0x06, 0x07, 0x2a, 0x86, 0x48, 0xce, 0x3d, 0x02, 0x01];
+		let curve = [[0x06u8, 0x08, 0x2a, 0x86, 0x48, 0xce, 0x3d, 0x03, 0x01, 0x07].to_vec(), vec![0x06, 0x05, 0x2b, 0x81, 0x04, 0x00, 0x22], vec![0x06, 0x05, 0x2b, 0x81, 0x04, 0x00, 0x23]];
+		let md = [(2u8, MessageDigest::sha256()), (3, MessageDigest::sha384()), (4, MessageDigest::sha512())].into_iter().find(|(n, _)| f.sig_alg == [&[0x30u8, 0x0a, 0x06, 0x08, 0x2a, 0x86, 0x48, 0xce, 0x3d, 0x04, 0x03][..], &[*n]].concat());
+		if has(&f.spki_alg, &ec_key) && curve.iter().any(|c| has(&f.spki_alg, c)) {
+			if let Some((_, md)) = md {
+				let Ok(pk) = PKey::public_key_from_der(&f.spki) else { return Some(false) };
+				let Ok(mut v) = openssl::sign::Verifier::new(md, &pk) else { return None };
+				if v.update(&f.info).is_err() {
+					return None;
+				}
+				return Some(v.verify(&f.sig).unwrap_or(false));
+			}
+		}
+	}
 	let p256 = [0x06, 0x08, 0x2a, 0x86, 0x48, 0xce, 0x3d, 0x03, 0x01, 0x07];
 	let p384 = [0x06, 0x05, 0x2b, 0x81, 0x04, 0x00, 0x22];
 	let rsa = [0x06, 0x09, 0x2a, 0x86, 0x48, 0x86, 0xf7, 0x0d, 0x01, 0x01, 0x01];
@@ -348,6 +366,48 @@ pub fn edge_requests(rsa_pkcs8: &[u8]) -> Vec<(String, Vec<u8>)> {
 			out.push((format!("key/rsa/{}", n), assemble(spki, &no_attrs, &rsa256_sig, &rsa_sign)));
 		}
 	}
+	// EC keys of each curve under each curve's label, signed (by OpenSSL) with each ECDSA
+	// identifier: only a point under its own curve's label is a key, and the signature is one
+	// under the embedded key only then
+	{
+		use openssl::nid::Nid;
+		let curves: [(&str, Nid, Vec<u8>); 3] = [
+			("p256", Nid::X9_62_PRIME256V1, vec![0x2a, 0x86, 0x48, 0xce, 0x3d, 0x03, 0x01, 0x07]),
+			("p384", Nid::SECP384R1, vec![0x2b, 0x81, 0x04, 0x00, 0x22]),
+			("p521", Nid::SECP521R1, vec![0x2b, 0x81, 0x04, 0x00, 0x23]),
+		];
+		let sigs: [(&str, openssl::hash::MessageDigest, u8); 3] = [
+			("sha256", openssl::hash::MessageDigest::sha256(), 2),
+			("sha384", openssl::hash::MessageDigest::sha384(), 3),
+			("sha512", openssl::hash::MessageDigest::sha512(), 4),
+		];
+		let ec_oid = tlv(0x06, &[0x2a, 0x86, 0x48, 0xce, 0x3d, 0x02, 0x01]);
+		for (kn, nid, _) in &curves {
+			let Ok(g) = openssl::ec::EcGroup::from_curve_name(*nid) else { continue };
+			let Ok(ec) = openssl::ec::EcKey::generate(&g) else { continue };
+			let mut bn = openssl::bn::BigNumContext::new().unwrap();
+			let point = ec.public_key().to_bytes(&g, openssl::ec::PointConversionForm::UNCOMPRESSED, &mut bn).unwrap();
+			let pkey = openssl::pkey::PKey::from_ec_key(ec).unwrap();
+			for (ln, _, label_oid) in &curves {
+				for (sn, md, last) in &sigs {
+					// the fitting triple of each curve is an ordinary request (covered elsewhere)
+					let natural = kn == ln && ((*kn == "p256" && *sn == "sha256") || (*kn == "p384" && *sn == "sha384") || (*kn == "p521" && *sn == "sha512"));
+					if natural {
+						continue;
+					}
+					let spki = tlv(0x30, &[tlv(0x30, &[ec_oid.clone(), tlv(0x06, label_oid)].concat()), bit_string(0, &point)].concat());
+					let sig_alg = tlv(0x30, &tlv(0x06, &[0x2a, 0x86, 0x48, 0xce, 0x3d, 0x04, 0x03, *last]));
+					let md = *md;
+					let sign = |m: &[u8]| {
+						let mut sg = openssl::sign::Signer::new(md, &pkey).unwrap();
+						sg.update(m).unwrap();
+						sg.sign_to_vec().unwrap()
+					};
+					out.push((format!("key/ec/{}-point-labelled-{}-signed-{}", kn, ln, sn), assemble(&spki, &no_attrs, &sig_alg, &sign)));
+				}
+			}
+		}
+	}
 	out
 }
 
@@ -465,7 +525,13 @@ fn offer(s: &mut Suite, origin: &str, der: &[u8], tie_model: bool) -> Option<Cer
 			use x509_parser::prelude::FromDer;
 			x509_parser::certification_request::X509CertificationRequest::from_der(der).map(|(_, c)| c.verify_signature().is_ok()).ok()
 		};
-		let third_party = parsed_by_third_party.unwrap_or(false) || (cfg!(feature = "aws") && verified == Some(true));
+		// rcgen's own verification (aws-lc-rs) covers exactly one case the third-party verifier
+		// lacks: a key labelled secp521r1 under ecdsa-with-SHA512
+		let p521_sha512 = fields.as_ref().map(|f| {
+			let has = |hay: &[u8], needle: &[u8]| hay.windows(needle.len()).any(|w| w == needle);
+			has(&f.spki_alg, &[0x06, 0x05, 0x2b, 0x81, 0x04, 0x00, 0x23]) && has(&f.sig_alg, &[0x06, 0x08, 0x2a, 0x86, 0x48, 0xce, 0x3d, 0x04, 0x03, 0x04])
+		}).unwrap_or(false);
+		let third_party = parsed_by_third_party.unwrap_or(false) || (cfg!(feature = "aws") && p521_sha512 && verified == Some(true));
 		let line = format!("parse-csr {} {} {} {}", cfg_name(), cfg!(feature = "aws"), third_party, hex(der));
 		let model = s.drv.ask(&line);
 		s.rep.distinct.insert(crate::report::hash_str(&line));
